@@ -35,7 +35,7 @@ def gen_cases(tier, seed):
             if r < 0.08:
                 ops.append({"op": "bframe", "d": frame(rng), "ts": ts})
             elif r < 0.65:
-                ops.append({"op": "frame", "d": frame(rng), "ts": ts})
+                ops.append({"op": "frame", "d": frame(rng), "ts": ts if rng.random() < 0.9 else 0})   # 0 is a time stamp too
             elif r < 0.7:
                 ops.append({"op": "reset"})
             elif r < 0.95:
